@@ -19,7 +19,7 @@ from fractions import Fraction
 
 import numpy as np
 
-from common import VERIF, qlit, qlist, zlit, coq_string, dyadic, coqc_many, parse_evals, parse_zlist, frac
+from common import VERIF, qlit, qlist, coq_string, dyadic, coqc, coqc_many, parse_evals, parse_zlist
 
 THEOREMS = ["C16_spectrometer_history_independent", "C16_spectrometer_reachable_valid", "C16_czerny_turner_history_independent",
             "C16_polychromator_history_independent", "C16_range_covers_pixels", "C16_range_covers_filters",
@@ -860,13 +860,17 @@ def run(ctx):
         hist.append(cal_case(rng, mod, Spectrum, quick))
     for _ in range(n_flt):
         hist.append(filter_case(rng, mod))
+    hist.sort(key=lambda h: h["kind"] != "calibrate")     # the expensive files are compiled first (stable sort)
     ctx.log("generated %d cases (%d corpus files present)" % (len(hist), len(corpus)))
 
     # ---- correspondence: the model is run by Coq ------------------------------------------------
-    per_file = 40
     files = []
-    for si in range(0, len(hist), per_file):
-        chunk = hist[si:si + per_file]
+    n_calib = sum(1 for h in hist if h["kind"] == "calibrate")        # these come first (sorted above)
+    bounds = list(range(0, n_calib, 15)) + list(range(n_calib, len(hist), 40)) + [len(hist)]
+    for fi, (si, ei) in enumerate(zip(bounds, bounds[1:])):
+        chunk = hist[si:ei]
+        if not chunk:
+            continue
         items = []
         for h in chunk:
             if h["kind"] in ("calibrate", "filter"):
@@ -875,8 +879,15 @@ def run(ctx):
                 items.append("(%s)" % h["case"])
         txt = (HEADER + "Definition res_opt {A} (r : res A) : option A := match r with Ok a => Some a | Err _ => None end.\n"
                "Definition results : list Z := [\n  " + ";\n  ".join(items) + "].\nEval vm_compute in results.\n")
-        files.append((ctx.write_gen("cases_%03d.v" % (si // per_file), txt), list(range(si, si + len(chunk)))))
+        files.append((ctx.write_gen("cases_%03d.v" % fi, txt), list(range(si, ei))))
     res = coqc_many([f for f, _ in files], timeout=900)
+    # a coqc process that died without any output was killed from outside (the machine is shared and the
+    # kernel's OOM killer picks victims freely): run such files once more, one at a time
+    for f, _ in files:
+        ok, out = res[f]
+        if not ok and not out.strip():
+            ctx.log("coqc on %s died without output; retrying" % os.path.basename(f))
+            res[f] = coqc(f, timeout=900)
     diff_cases = []
     for f, ids in files:
         ok, out = res[f]
